@@ -5,7 +5,7 @@
    longer exclude those regions.  Witnesses for what is still excluded (the kept findings F-C02-1,
    F-C02-2 and null into an array) are in C02/Refuted.v. *)
 From GocqlV Require Import Lib.Base Gen.Consts C12.Model C12.Spec C12.Denote
-  C12.Proofs1 C12.Proofs2 C12.Proofs3 C12.Proofs4 C12.Proofs5 C02.Proofs1 C02.Proofs2.
+  C12.Proofs1 C12.Proofs2 C12.Proofs3 C12.Proofs4 C12.Proofs5 C12.Proofs6 C02.Proofs1 C02.Proofs2 C02.Proofs3.
 
 (* Every native column type, every Go source and every documented Go target of the model's universe:
    if Marshal returns bytes and Unmarshal of them succeeds, the stored value means what the source value
@@ -90,6 +90,23 @@ Theorem C02_rt_tuple_lift : forall pv es l ts h bs,
 Proof. exact rt_tuple_lift. Qed.
 Print Assumptions C02_rt_tuple_lift.
 
+(* One statement for every type tree built from natives, lists, sets and tuples (any nesting, any length and
+   arity, both collection framings, pointers peeled at every level on the way in, pointer targets at every
+   level on the way out): if Marshal returns bytes for a value with a documented meaning and Unmarshal of them
+   succeeds, the stored value means what the source meant.  [good] (C12/Proofs4.v) and [dec_good]
+   (C12/Proofs6.v) exclude only: F-C02-1 in both directions, int64 overflow of millisecond timestamps,
+   components of 2 GiB or more, and the documented conflations (a null element / component read into a
+   non-pointer target is the zero value; empty blob / nil []byte; year-1 instant / zero time.Time; NaN
+   payload of defined float32 types; IPv4-mapped addresses), each shown necessary in C12/Refuted.v.
+   Maps and user-defined types are not covered ([dec_good] is False for them): for those the check relies
+   on the correspondence run and the round-trip monitor. *)
+Theorem C02_rt_every_type : forall pv ty g b t g' x,
+  good pv ty g -> denote ty g = Some (Some x) -> marshal pv ty g = Ok (Some b) ->
+  dec_good pv ty x t -> unmarshal pv ty (Some b) t = Ok g' ->
+  denote ty g' = denote ty g.
+Proof. exact rt_every_type. Qed.
+Print Assumptions C02_rt_every_type.
+
 (* ---- non-vacuity -------------------------------------------------------------------------------------------- *)
 Example C02_nonvacuous :
   (* a uint16 above the smallint maximum, same type back *)
@@ -116,4 +133,25 @@ Proof.
     apply Forall2_cons; [exists None; split; vm_compute; reflexivity | apply Forall2_nil]. }
   cbn [tuple_rt comp_rt]. split; [vm_compute; reflexivity|]. split; [|exact I].
   exists (Some [104; 105]). split; [vm_compute; reflexivity|]. split; vm_compute; reflexivity.
+Qed.
+
+(* non-vacuity of C02_rt_every_type: list<tuple<int, varint>> from [][]interface{} back into *[][]interface{} *)
+Example C02_nonvacuous_every_type :
+  let ty := TList (TTuple [TNative Id.int; TNative Id.varint]) in
+  let g := GSlice (Some [GIfaces [GPtr (Some (GInt I8 true 5)); GBig 300]]) in
+  let x := VList [Some (VTuple [Some (VInt 5); Some (VInt 300)])] in
+  let t := YPtr (YSlice (YSlice YIface)) in
+  good 4 ty g /\ denote ty g = Some (Some x)
+  /\ marshal 4 ty g = Ok (Some [0;0;0;1; 0;0;0;14; 0;0;0;4;0;0;0;5; 0;0;0;2;1;44])
+  /\ dec_good 4 ty x t
+  /\ unmarshal 4 ty (Some [0;0;0;1; 0;0;0;14; 0;0;0;4;0;0;0;5; 0;0;0;2;1;44]) t
+     = Ok (GPtr (Some (GSlice (Some [GSlice (Some [GInt IInt false 5; GPtr (Some (GBig 300))])])))).
+Proof.
+  cbv zeta. split.
+  { cbn [good peel as_list]. repeat constructor; cbn; try lia; try discriminate; try (intros; discriminate);
+      try (intros ? H; vm_compute in H; injection H as <-; vm_compute; reflexivity). }
+  split; [vm_compute; reflexivity|]. split; [vm_compute; reflexivity|]. split; [|vm_compute; reflexivity].
+  cbn. repeat constructor; cbn; try lia; try discriminate; try reflexivity.
+  - eexists. split; [reflexivity|]. cbn. repeat split; try lia; try discriminate; try reflexivity.
+  - eexists. split; [reflexivity|]. cbn. repeat split; try lia; try discriminate; try reflexivity.
 Qed.
